@@ -511,8 +511,25 @@ package rest
 // (This is what the Own clauses of rollbackDatabaseConfig assume about the entry.)
 //@ func bootstrapContext.waitForConfigDelete
 //@   modifies *
-//@   only-contracts IsDocNotFoundError
+//@   only-contracts IsDocNotFoundError, Errorf
 //@   before[delete-is-completed] call rollbackRegistry#1 $5 == nil
+//@   before[deletes-only-on-still-there-verdict] call DeleteMetadataDocument#1 err == box(base.ErrAlreadyExists) && dynType(retryResult) == typeTag(uint64) && $4 == unbox(retryResult, uint64)
+//@   ensures[removes-only-after-delete]  called(rollbackRegistry, 1) ==> called(DeleteMetadataDocument, 1) && isNilErr(callres(DeleteMetadataDocument, 1, 0))
+//@   ensures[done-no-delete]             !called(DeleteMetadataDocument, 1) && !called(Errorf, 1) ==> result == err   // any other verdict of the wait loop (gone, storage error, reload required) is returned as it is; with [deletes-only-on-still-there-verdict]: nothing is deleted or removed on those verdicts
+
+// One attempt of waitForConfigDelete (the retry worker); `config` is the document read in this attempt. The verdict
+// "still there" (ErrAlreadyExists with the document's cas -- after the time-out the caller DELETES the document with
+// that cas and removes the registry entry) is given only for the very version whose delete is awaited: full version
+// string equality, or no particular version awaited (version == ""). A document with any other version -- same
+// generation or not: a re-created database restarts at generation 1 -- belongs to somebody else's acknowledged change:
+// the worker stops at once with ErrConfigRegistryReloadRequired and no cas.
+//@ func bootstrapContext.waitForConfigDelete$1
+//@   modifies *
+//@   ensures[gone]           isDocNotFoundErr(callres(GetMetadataDocument, 1, 1)) ==> !shouldRetry && isNilErr(err) && isNilErr(value)
+//@   ensures[storage-error]  !isDocNotFoundErr(callres(GetMetadataDocument, 1, 1)) && !isNilErr(callres(GetMetadataDocument, 1, 1)) ==> !shouldRetry && err == callres(GetMetadataDocument, 1, 1) && isNilErr(value)
+//@   ensures[still-there-only-awaited-version] !isNilErr(value) ==> (version == "" || config.Version == version) && shouldRetry && err == box(base.ErrAlreadyExists) && dynType(value) == typeTag(uint64) && unbox(value, uint64) == callres(GetMetadataDocument, 1, 0)
+//@   ensures[other-version-stops] isNilErr(callres(GetMetadataDocument, 1, 1)) && version != "" && config.Version != version ==> !shouldRetry && err == box(base.ErrConfigRegistryReloadRequired) && isNilErr(value)
+//@   ensures[awaited-version-waits] isNilErr(callres(GetMetadataDocument, 1, 1)) && (version == "" || config.Version == version) ==> shouldRetry && err == box(base.ErrAlreadyExists) && !isNilErr(value)
 //@ func bootstrapContext.getRegistryAndDatabase
 //@   modifies *
 //@   only-contracts IsDeleted
